@@ -415,3 +415,42 @@ func c01CaseMembersIndexedInHolder(ctx *core.Ctx, r *core.Report) {
 	r.Ob("case-members-indexed-in-holder", "meta.resolver.addDataDefinition/case-parent", ctx.Pos(f.Pos()), ok,
 		"a node added to a case is not entered into the name index of the node that holds the choice: a node that reaches the case after the choice was added (uses inside a case, nested choice, augment of a choice or case) cannot be addressed by name, and switching away from its case fails")
 }
+
+// c07ConstraintsKeepNoTally: a constraint object lives as long as the constrained
+// selection and is consulted by every read made through it. A Check…Constraints
+// method that writes a field of its own receiver carries state from one read into the
+// next: the second read of `sel.Constrain("fc.max-node-count=3")` starts counting
+// where the first one stopped.
+func c07ConstraintsKeepNoTally(ctx *core.Ctx, r *core.Report) {
+	n := 0
+	for _, f := range scopeFuncs(ctx, "node") {
+		if f.Signature.Recv() == nil || !strings.HasPrefix(f.Name(), "Check") || !strings.HasSuffix(f.Name(), "Constraints") {
+			continue
+		}
+		if strings.HasSuffix(core.TypeName(core.Deref(f.Signature.Recv().Type())), "node.Constraints") {
+			continue // the dispatcher over the registered constraints
+		}
+		n++
+		if len(f.Params) == 0 {
+			continue
+		}
+		recv := f.Params[0]
+		written := map[string]token.Pos{}
+		core.Instrs(f, func(b *ssa.BasicBlock, in ssa.Instruction) {
+			if st, isSt := in.(*ssa.Store); isSt {
+				if fa, isFa := st.Addr.(*ssa.FieldAddr); isFa && core.Strip(fa.X) == ssa.Value(recv) {
+					written[faName(fa)] = st.Pos()
+				}
+			}
+		})
+		if len(written) == 0 {
+			r.Ob("constraints-keep-no-tally", core.FnName(f), ctx.Pos(f.Pos()), true, "")
+			continue
+		}
+		for name, pos := range written {
+			r.Ob("constraints-keep-no-tally", core.FnName(f)+"/"+name, ctx.Pos(pos), false,
+				"a constraint writes its own field "+name+" while it is consulted: the constraint outlives the read (it belongs to the constrained selection), so the next read through the same selection starts from the state the previous one left")
+		}
+	}
+	r.Floor("constraints-keep-no-tally", n, 8)
+}
